@@ -23,3 +23,27 @@ impl Default for Variable {
         ensures r == default_variable()
     { unimplemented!() }
 }
+
+/// name and value a `name=value` C string was built from (uninterpreted: C strings are not modelled)
+pub uninterp spec fn cstr_name(c: std::ffi::CString) -> Seq<char>;
+pub uninterp spec fn cstr_value(c: std::ffi::CString) -> Value;
+
+/// The tail of the closure of `env_c_strings` (`let mut result = name.clone(); ... CString::new(result).ok()`), which
+/// formats `name=value` (array items joined with `:`) into a C string: string formatting, itertools and CString are
+/// outside Verus's reach; the call stands for that tail, behind an ASSUMED contract that only says which name and which
+/// value went in (rewrite rule tokens-to-helper; the formatting itself is NOT verified).
+#[verifier::external_body]
+pub fn verif_env_entry(name: &String, value: &Value) -> (r: Option<std::ffi::CString>)
+    ensures r is Some ==> cstr_name(r->0) == name@ && cstr_value(r->0) == *value,
+{
+    // In the code (yash-env/src/variable.rs, matched token for token by the rewrite rule, so any edit of it is a lost anchor):
+    //     let mut result = name.clone();
+    //     result.push('=');
+    //     match value {
+    //         Scalar(value) => result.push_str(value),
+    //         Array(values) => write!(result, "{}", values.iter().format(":")).ok()?,
+    //     }
+    //     CString::new(result).ok()
+    // (not compiled here: itertools is not linked into the single-file build)
+    unimplemented!()
+}
